@@ -4,15 +4,21 @@ import json, sys
 pid = sys.argv[1]
 props = {json.loads(l)["id"]: json.loads(l) for l in open("/verif/properties.jsonl")}
 p = props[pid]
-wt = "/tmp/seed-%s" % pid
-out = "/tmp/seed-%s-out" % pid
+suffix = sys.argv[2] if len(sys.argv) > 2 else ""      # e.g. "-r2" for a second, independent round
+wt = "/tmp/seed-%s%s" % (pid, suffix)
+out = "/tmp/seed-%s%s-out" % (pid, suffix)
+EMPH = ""
+if suffix:
+    EMPH = (" For this round, aim for changes that are hard to notice: ones that need a multi-step sequence of API calls, a state reached only after"
+            " an earlier error or boundary, a non-default cargo feature / target feature / back end that the test host never selects, a build profile"
+            " (overflow checks on vs off), an unusual integer type or value of an argument, or two sites that are each correct alone.")
 print(f"""You are testing how well a Rust code base's semantic properties can be guarded. You get ONE property and your own scratch git worktree of the repository (cryptocorrosion: pure-Rust SIMD crypto primitives — c2-chacha, threefish, blake/groestl/jh/skein hashes, ppv-lite86, ppv-null, crypto-simd). Work ONLY inside {wt} (the worktree, already created for you, a checkout of the current HEAD) and {out} (your output directory; create it). Do NOT read or write anything under /verif or /repo, and do not look for other people's notes: your result must be independent.
 
 THE PROPERTY ({pid}: {p.get('title')}):
 {p.get('statement')}
 Code anchors: {json.dumps(p.get('anchors'), indent=1)[:3500]}
 
-YOUR TASK: produce TWO different (different in kind / in different places) small source changes to the repository, each of which BREAKS this property while (a) the whole workspace still compiles and (b) the existing test suite still passes: `cd {wt} && CARGO_TARGET_DIR={wt}/target cargo test --workspace --no-fail-fast --offline` (39 tests pass on the unchanged tree; they must all still pass with your change). Think like a realistic regression a maintainer could introduce (a refactoring slip, an off-by-one, a wrong constant in a rarely used path, a dropped carry, a condition flipped at a boundary, two cooperating sites that each look fine alone). Prefer changes that need something SPECIFIC to manifest — an unusual input or length, a boundary position/counter, a multi-step sequence of operations, a particular back end or feature configuration, a particular interleaving — rather than ones that ordinary use exposes at once. Do not touch tests, and do not touch or rely on code under `#[cfg(cryptocorrosion_verif)]` (verification hooks; leave them alone). The network is unavailable (always pass --offline; set CARGO_NET_OFFLINE=true). /repo/.cargo/config.toml's rustflag `--cfg zerocopy_derive_union_into_bytes` is already in the worktree's .cargo/config.toml.
+YOUR TASK: produce TWO different (different in kind / in different places) small source changes to the repository, each of which BREAKS this property while (a) the whole workspace still compiles and (b) the existing test suite still passes: `cd {wt} && CARGO_TARGET_DIR={wt}/target cargo test --workspace --no-fail-fast --offline` (39 tests pass on the unchanged tree; they must all still pass with your change). Think like a realistic regression a maintainer could introduce (a refactoring slip, an off-by-one, a wrong constant in a rarely used path, a dropped carry, a condition flipped at a boundary, two cooperating sites that each look fine alone). Prefer changes that need something SPECIFIC to manifest — an unusual input or length, a boundary position/counter, a multi-step sequence of operations, a particular back end or feature configuration, a particular interleaving — rather than ones that ordinary use exposes at once.{EMPH} Do not touch tests, and do not touch or rely on code under `#[cfg(cryptocorrosion_verif)]` (verification hooks; leave them alone). The network is unavailable (always pass --offline; set CARGO_NET_OFFLINE=true). /repo/.cargo/config.toml's rustflag `--cfg zerocopy_derive_union_into_bytes` is already in the worktree's .cargo/config.toml.
 
 FOR EACH change k in {{1,2}} write {out}/<k>/ containing:
  - patch.diff : `git -C {wt} diff` of exactly that change against the worktree HEAD (must apply with `git apply` to a clean checkout of HEAD);
